@@ -1,9 +1,11 @@
 #!/bin/sh
-# process round-2 seeds of one property: tools/seed2.sh C04 [extra checks...]
+# process the two seeds (_seed/A, _seed/B) of one property: tools/seed2.sh C04 [round letters, default "bc"] [extra checks...]
 pid=$1; shift
+letters=${1:-bc}; [ $# -gt 0 ] && shift
+la=$(echo $letters | cut -c1); lb=$(echo $letters | cut -c2)
 for v in A B; do
   if [ -f /tmp/wt/$pid/_seed/$v/patch.diff ]; then
-    lc=$(echo $v | tr AB bc)
+    [ $v = A ] && lc=$la || lc=$lb
     echo "== $pid-$lc"
     timeout 3000 python3 /verif/tools/seedproc.py /tmp/wt/$pid $pid-$lc $pid $pid "$@" --seed=_seed/$v 2>&1 | tail -8 | cut -c1-330
   fi
